@@ -460,8 +460,11 @@ def run_async(cfg, prefix):
             sch.state_fn = lambda: S.ram_digest(st)
         ix = st.create_index(c02.schema())
         w0 = ix.writer()
-        c02.apply_ops(w0, [["add", "k0", "a"]])
+        init = cfg.get("init", ["k0"])
+        c02.apply_ops(w0, [["add", k, "a"] for k in init])
         w0.commit()
+        main_ops = cfg.get("main_ops", [["add", "m", "b"]])
+        async_ops = [["add", "x", "a"], ["add", "y", "b"]] + ([["del", cfg["async_delete"]]] if cfg.get("async_delete") else [])
         ix_m = st.open_index()
         ix_a = st.open_index()
         state = {}
@@ -476,10 +479,14 @@ def run_async(cfg, prefix):
                 state["main_lockerror"] = True
                 return
             state["main_has"] = True
-            c02.apply_ops(w, [["add", "m", "b"]])
+            state.setdefault("lock_order", []).append("M")
+            c02.apply_ops(w, main_ops)
             sch.point(("main", "holding"), yielding=True)
             if cfg["main_end"] == "commit":
                 w.commit(merge=False)
+                state["main_committed"] = True
+            elif cfg["main_end"] == "optimize":
+                w.commit(optimize=True)
                 state["main_committed"] = True
             else:
                 w.cancel()
@@ -487,10 +494,14 @@ def run_async(cfg, prefix):
         def user():
             aw = writing.AsyncWriter(ix_a, delay=0.05)
             state["async_direct"] = aw.writer is not None
+            if aw.writer is not None:
+                state.setdefault("lock_order", []).append("U")
+            # (the delete is requested first: it refers to the documents
+            # committed when the AsyncWriter's transaction finally runs)
+            if cfg.get("async_delete"):
+                aw.delete_by_term("key", cfg["async_delete"])
             aw.add_document(key=u"x", text=c02.TEXTS["a"], n=1, tag=u"a t")
             aw.add_document(key=u"y", text=c02.TEXTS["b"], n=2, tag=u"b t")
-            if cfg.get("async_delete"):
-                aw.delete_by_term("key", u"k0")
             aw.commit()
 
         sch.spawn("M", main)
@@ -510,11 +521,20 @@ def run_async(cfg, prefix):
             try:
                 with st.open_index().searcher() as s:
                     keys = sorted(sf["key"] for sf in s.all_stored_fields())
-                expect = set([u"k0", u"x", u"y"])
-                if state.get("main_committed"):
-                    expect.add(u"m")
-                if cfg.get("async_delete"):
-                    expect.discard(u"k0")
+                # sequential model: main's transaction (if it got the lock and
+                # committed), then the AsyncWriter's
+                expect = list(init)
+                a_txn = ([["del", cfg["async_delete"]]] if cfg.get("async_delete") else []) + async_ops[:2]
+                m_txn = [main_ops] if state.get("main_committed") else []
+                # whoever got the lock first comes first
+                first_u = state.get("async_direct") and state.get("lock_order", ["U"])[0] == "U"
+                txns = ([a_txn] + m_txn) if first_u else (m_txn + [a_txn])
+                for ops in txns:
+                    for op in ops:
+                        if op[0] == "add":
+                            expect.append(op[1])
+                        elif op[0] == "del":
+                            expect = [k for k in expect if k != op[1]]
                 if keys != sorted(expect):
                     outcome["problems"].append(("lost-or-duplicated", "final documents %r, expected %r" % (keys, sorted(expect))))
                 outcome["keys"] = keys
@@ -679,7 +699,13 @@ def b_configs(tier):
         for end in ("commit", "cancel"):
             out.append({"kind": "async", "name": "async:%s:main-%s" % (storage, end), "storage": storage, "main_end": end})
         out.append({"kind": "async", "name": "async:%s:main-commit:delete" % storage, "storage": storage,
-                    "main_end": "commit", "async_delete": True})
+                    "main_end": "commit", "async_delete": u"k0"})
+        # the lock holder renumbers the documents (delete + optimize) or adds a
+        # document carrying the term the AsyncWriter was asked to delete
+        out.append({"kind": "async", "name": "async:%s:main-del-optimize:delete" % storage, "storage": storage,
+                    "init": ["k0", "k1", "k2"], "main_ops": [["del", "k0"]], "main_end": "optimize", "async_delete": u"k1"})
+        out.append({"kind": "async", "name": "async:%s:main-add-same-term:delete" % storage, "storage": storage,
+                    "init": ["k0", "k1"], "main_ops": [["add", "k1", "b"]], "main_end": "commit", "async_delete": u"k1"})
     out.append({"kind": "buffered", "name": "buffered:limit2:1+1", "limit": 2, "period": None,
                 "keys1": [u"a"], "keys2": [u"b"], "observations": 1})
     out.append({"kind": "buffered", "name": "buffered:limit2:2+1", "limit": 2, "period": None,
